@@ -507,6 +507,29 @@ func genC02(g *G) {
 			db = g.jitter(rawPt(-o.X, -o.Y, -o.Z), 2)
 		case 9: // a, b equidistant-ish: b = rotation of a about x by a float angle
 			db = s2.Rotate(da, x, s1.Angle(r.Float()*6))
+		case 10: // a and b within one or two ulps of x in every coordinate, (almost) RADIALLY: a ~ x(1+u), b ~ x(1-u).  The angles are
+			// ~1e-16, x-a is nearly parallel to x+a, the cross product of the sin^2 stage cancels to ~1e-32 and only the
+			// ABSOLUTE term of its error bound covers the rounding error (seeded change C02_3)
+			nud := func(v float64, k int) float64 {
+				for ; k > 0; k-- {
+					v = math.Nextafter(v, v*2)
+				}
+				for ; k < 0; k++ {
+					v = math.Nextafter(v, 0)
+				}
+				return v
+			}
+			ka := []int{1, 1, 1}
+			kb := []int{-1, -1, -1}
+			if r.Intn(3) == 0 { // not quite radial
+				ka[r.Intn(3)] = r.Intn(3)
+				kb[r.Intn(3)] = -r.Intn(3)
+			}
+			if r.Bool() {
+				ka, kb = kb, ka
+			}
+			da = rawPt(nud(x.X, ka[0]), nud(x.Y, ka[1]), nud(x.Z, ka[2]))
+			db = rawPt(nud(x.X, kb[0]), nud(x.Y, kb[1]), nud(x.Z, kb[2]))
 		}
 		g.emit("c02cmpd", ptArgs(x, da, db)...)
 		g.emit("c02err", ptArgs(x, da)...)
